@@ -25,6 +25,9 @@ def check(ctx):
     # rows are rebuilt key by key (simultaneous mapping), values untouched
     from checks import C15
     C15.select_delete_rename(ctx)
+    # concatenate: the target declares exactly the requested fields and the row builder is given the same names (shared with C16)
+    from checks import C16
+    C16.concatenate_target_schema(ctx)
     # 2b. rows re-read from a stream file / reused checkpoint carry values of their declared types only if every tagged value
     #     is decoded back (the decoder swallows parse errors and returns the tag dict): writer / reader agreement of the encoding
     from checks import C07
@@ -32,6 +35,9 @@ def check(ctx):
     # 3. value types that are a table
     abstypes.r18_join_aggregators(ctx)
     abstypes.r18_computed_field(ctx)
+    # R18c evaluates each operation on a list of values of the source fields' type: that is what the operation receives only if the
+    # row wrapper hands it exactly the row's non-null source values, untouched (shared clause with C15)
+    C15.computed_field_clause(ctx)
     abstypes.r18_reuse_guard(ctx)
     abstypes.r17_isinstance_order(ctx, [ctx.repo.func('dataflows.helpers.iterable_loader:iterable_storage.field_type')])
     ft = ctx.repo.func('dataflows.helpers.iterable_loader:iterable_storage.field_type')
